@@ -2034,3 +2034,12 @@ MA('C20', 'custom inner product hashed by the identity of the callable',
    'odl/space/weighting.py', 'CustomInner.__hash__',
    'return hash((super(CustomInner, self).__hash__(), self.inner))',
    'return hash((super(CustomInner, self).__hash__(), id(self.inner)))', 'R1c')
+MA('C14', 'interval limits stored without a copy',
+   'odl/set/domain.py', 'IntervalProd.__init__',
+   "self.__min_pt = np.atleast_1d(min_pt).astype('float64')",
+   "self.__min_pt = np.array(min_pt, dtype='float64', copy=False, ndmin=1)", 'R1o')
+MA('C14', 'uniformity decided against equispaced points of the same end points',
+   'odl/discr/grid.py', 'RectGrid.__init__',
+   'diffs = [np.diff(v) for v in self.coord_vectors]',
+   'diffs = [v - np.linspace(v[0], v[-1], len(v)) + v[0] for v in self.coord_vectors]',
+   'R1u')
